@@ -15,6 +15,9 @@ class AsyncoreConnectionDispatcher(YowConnectionDispatcher, asyncore.dispatcher_
         self._connected = False
         # out_buffer is written by whichever thread sends and by the thread running asyncore.loop
         self._send_lock = threading.Lock()
+        # the end of this connection is announced once, by whichever thread notices it first
+        self._close_lock = threading.Lock()
+        self._closed = False
 
     def sendData(self, data):
         if self._connected:
@@ -45,7 +48,13 @@ class AsyncoreConnectionDispatcher(YowConnectionDispatcher, asyncore.dispatcher_
         logger.debug("handle_close")
         self.close()
         self._connected = False
-        self.connectionCallbacks.onDisconnected()
+        with self._close_lock:
+            first = not self._closed
+            self._closed = True
+        if first:
+            # a sender that was in the middle of a write when the connection ended comes here a second time, possibly
+            # after the network layer has moved on to the next connection
+            self.connectionCallbacks.onDisconnected()
 
     def handle_error(self):
         logger.error(traceback.format_exc())
